@@ -215,6 +215,10 @@ func rewriteFile(p *packages.Package, f *ast.File, fn string, isJournal bool) bo
 			site("sync-import", rel, fset.Position(im.Pos()))
 		}
 	}
+	goName := "GoWorker"
+	if isJournal {
+		goName = "Go"
+	}
 	vsyncName := "vsync_"
 	if hasSync {
 		vsyncName = "sync"
@@ -279,7 +283,7 @@ func rewriteFile(p *packages.Package, f *ast.File, fn string, isJournal bool) bo
 				Body: &ast.BlockStmt{List: []ast.Stmt{&ast.ExprStmt{X: n.Call}}},
 			}
 			c.Replace(&ast.ExprStmt{X: &ast.CallExpr{
-				Fun:  &ast.SelectorExpr{X: ast.NewIdent(vsyncName), Sel: ast.NewIdent("Go")},
+				Fun:  &ast.SelectorExpr{X: ast.NewIdent(vsyncName), Sel: ast.NewIdent(goName)},
 				Args: []ast.Expr{lit},
 			}})
 			if !hasSync {
